@@ -3,6 +3,7 @@ package main
 import (
 	"context"
 	"fmt"
+	"sort"
 	"strconv"
 	"strings"
 	"sync"
@@ -47,6 +48,7 @@ type c01ShMon struct {
 	varying bool
 	live    bool
 	view    map[int]int
+	mon     kem.Monitor // kept after StopMonitor (the manager forgets it)
 	mu      sync.Mutex
 	events  []c01Ev
 }
@@ -246,6 +248,7 @@ func (e *c01ShEnv) start(m *c01ShMon, between []c01Ev) bool {
 		return false
 	}
 	mon := e.mgr.GetMonitor(m.id)
+	m.mon = mon
 	m.view = c01ShView(mon.Snapshot())
 	if !e.apply(between) {
 		return false
@@ -254,7 +257,7 @@ func (e *c01ShEnv) start(m *c01ShMon, between []c01Ev) bool {
 	return true
 }
 
-func (e *c01ShEnv) stop(m *c01ShMon) {
+func (e *c01ShEnv) stop(m *c01ShMon) bool {
 	mon := e.mgr.GetMonitor(m.id)
 	_ = e.mgr.StopMonitor(m.id)
 	m.live = false
@@ -265,9 +268,50 @@ func (e *c01ShEnv) stop(m *c01ShMon) {
 			left = left || inf.Registered
 		}
 		if !left {
-			break
+			return true
 		}
 	}
+	e.c.Inconcl = "a stopped monitor did not leave its shared informers within the deadline"
+	return false
+}
+
+// inNs1: the monitor has a resource informer on the factory index of namespace 1 (never deleted)
+func (m *c01ShMon) inNs1() bool {
+	if m.varying {
+		return true
+	}
+	for _, n := range m.nss {
+		if n == 1 {
+			return true
+		}
+	}
+	return false
+}
+
+// shObs: what the real FactoryStore shows for the index of namespace 1 — the monitors whose informer
+// is registered there and whether the shared informer behind them is running (correspondence with
+// Model/EventFlow.Shared, op lines `sh start i` / `sh stop i`).
+func (e *c01ShEnv) shObs() string {
+	var regs []int
+	running := 0
+	for _, m := range e.order {
+		if m.mon == nil {
+			continue
+		}
+		for _, inf := range kem.VerifC02Describe(m.mon) {
+			if inf.Namespace != e.nsName(1) {
+				continue
+			}
+			if inf.Registered {
+				regs = append(regs, m.num)
+			}
+			if stopped, ok := kem.VerifC01SharedStopped(inf.Index); ok && !stopped {
+				running = 1
+			}
+		}
+	}
+	sort.Ints(regs)
+	return fmt.Sprintf("regs=%s running=%d", joinInts(regs), running)
 }
 
 func c01ShGenOps(rng *Rng, live map[int]int, next *int, nss []int, n int) []c01Ev {
@@ -400,11 +444,19 @@ func c01SharedRun(c *Case, specs []*c01ShMon, steps []c01ShStep) {
 			if !e.start(specs[st.mon], st.between) {
 				return
 			}
+			if specs[st.mon].inNs1() {
+				c.Op(fmt.Sprintf("sh start %d", st.mon), e.shObs())
+			}
 		case "stop":
 			if e.sharedMax >= 2 {
 				stopsShared++
 			}
-			e.stop(specs[st.mon])
+			if !e.stop(specs[st.mon]) {
+				return
+			}
+			if specs[st.mon].inNs1() {
+				c.Op(fmt.Sprintf("sh stop %d", st.mon), e.shObs())
+			}
 		case "chg":
 			if !e.apply(st.evs) {
 				return
